@@ -15,6 +15,7 @@ system; the implementation is observed on the schedules the harness provokes.
 import GoNfsd.Model.Locks
 import GoNfsd.Lemmas.Serial
 import GoNfsd.Gen.Skeleton
+import GoNfsd.Lemmas.SlotLock
 
 namespace GoNfsd.Props.C03
 open GoNfsd.Model.Locks
@@ -167,5 +168,31 @@ theorem slots_are_fetched_under_the_lock :
 example : GoNfsd.Model.Skeleton.slotCheck ("LockInode", [(0, "LookupSlot"), (0, "Acquire")]) = false := by decide
 example : GoNfsd.Model.Skeleton.slotCheck ("Abort", [(1, "releaseInodes"), (1, "forgetInodes")]) = false := by decide
 example : ("LockInode", [(0, "Acquire"), (0, "LookupSlot")]) ∈ GoNfsd.Gen.Skeleton.slotUses := by decide
+
+/-! ### why: inode locks and cache slots together (model M8d) -/
+section slotlock
+open GoNfsd.Model.SlotLock
+
+/-- Under the discipline that `slots_are_fetched_under_the_lock` checks on the code — a slot is looked
+    up only by the holder of the inode's lock — in every state reachable by any interleaving of lock
+    grants, lookups, evictions (of ANY entry at ANY time), in-place modifications, commits and aborts,
+    the slot a lookup returns holds no uncommitted changes of another transaction: a transaction
+    never observes what an aborted (or not yet committed) transaction did to the cached inode. -/
+theorem no_transaction_sees_anothers_uncommitted_inode (ops : List Op) (s s' : St) (t i : Nat)
+    (hd : Disciplined empty ops) (hr : run empty ops = some s) (hl : s.lock i = some t)
+    (hs : step s (.lookup t i) = some s') :
+    ∃ k, s'.ptr t i = some k ∧ (s'.tainted k = none ∨ s'.tainted k = some t) :=
+  lookup_never_returns_foreign_taint s s' t i (run_inv ops empty s empty_inv hd hr) hl hs
+
+/-- Without the discipline it fails, in six steps (the seeded change C03i: the waiter fetched the
+    slot BEFORE it was granted the lock): transaction 1 holds inode 5 and its slot; transaction 2,
+    waiting, fetches the same slot; 1 modifies the inode in place; the entry is evicted; 1 aborts
+    (which clears the slot the cache has NOW, a fresh one) and releases; 2 is granted the lock and
+    works on its pointer — the orphaned slot with the aborted changes of 1. -/
+theorem slot_fetched_before_the_lock_sees_aborted_changes :
+    ((run empty [.acquire 1 5, .lookup 1 5, .lookup 2 5, .modify 1 5, .evict 5, .abort 1 5, .acquire 2 5]).map
+      fun s => (s.lock 5, s.ptr 2 5, s.tainted 0)) = some (some 2, some 0, some 1) := by decide
+
+end slotlock
 
 end GoNfsd.Props.C03
